@@ -608,6 +608,13 @@ def _restore_typed_primitive(
             return IndefiniteList(v_list)
         else:
             return v_list
+    elif hasattr(t, "__origin__") and (t.__origin__ is tuple):
+        t_args = t.__args__
+        if not isinstance(v, (list, tuple, IndefiniteList)) or len(v) != len(t_args):
+            raise DeserializeException(
+                f"Expected a sequence of {len(t_args)} elements but got {v}"
+            )
+        return tuple(_restore_typed_primitive(a, w) for a, w in zip(t_args, v))
     elif isclass(t) and t == ByteString:
         if not isinstance(v, bytes):
             raise DeserializeException(f"Expected type bytes but got {type(v)}")
